@@ -40,16 +40,16 @@ log("end ", b)
 
 // line numbers of gateProgA
 const (
-	laFirst   = 1
-	laInF     = 4
-	laInG     = 8
-	laCall    = 11
-	laAfter   = 12
-	laLoop    = 14
-	laTry     = 16
-	laRaise   = 17
-	laEnd     = 21
-	gateALen  = 21
+	laFirst  = 1
+	laInF    = 4
+	laInG    = 8
+	laCall   = 11
+	laAfter  = 12
+	laLoop   = 14
+	laTry    = 16
+	laRaise  = 17
+	laEnd    = 21
+	gateALen = 21
 )
 
 const gateProgSink = `func h(x) {
